@@ -803,6 +803,17 @@ example : protos libFuel libX.ns exPd exParent =
       [(['e','q','u','i','p'], 7), (['d','i','s'], 3), (['a','h','u'], 1)] ] := by decide +kernel
 end
 
+open Hs.NsA in
+/-- `core_type_defs`: sixteen fields; each holds the def named after its kind when the namespace has one, the empty
+dict otherwise -/
+theorem core_type_defs_spec (g : Defs) :
+    (coreTypeDefs g).length = 16 ∧
+    ∀ (i : Nat) (n : Name), coreTypeNames[i]? = some n →
+      (coreTypeDefs g)[i]? = some (if defined g n then some n else none) := by
+  refine ⟨by simp [coreTypeDefs, coreTypeNames], ?_⟩
+  intro i n h
+  simp [coreTypeDefs, List.getElem?_map, h]
+
 /-! The fuel bound is attained: below the undefined symbol `nowhere` hang both defs of this grid, the subtype
 traversal pops `1 + 2` vectors; one unit of fuel less and the model reports `diverge`. -/
 def chainRows : List Row :=
